@@ -1,7 +1,8 @@
 """C03 - TT-tensor arithmetic equals dense arithmetic entry for entry."""
 from fractions import Fraction
 import ttgen, expr, coqrun, exprcheck
-from expr import Lit3, Scal, NoneE, Op
+from expr import Lit3, Scal, NoneE, Op, Dense
+import numpy as np
 
 PID = "C03"
 
@@ -28,7 +29,7 @@ def gen_case(rng, car):
         Ny = [n if rng.random() < 0.6 else 1 for n in N[len(N) - k:]]
         y = gen_tt(rng, cplx=cplx, N=Ny)
         return Op(rng.choice(["OAdd", "OSub", "OMul"]), [x, y]), "bcast", None
-    if r < 0.80:      # scalars of every kind, from either side
+    if r < 0.72:      # scalars of every kind, from either side
         x = gen_tt(rng, cplx=cplx)
         op = rng.choice(["OAdd", "ORAdd", "OSub", "ORSub", "OMul", "ORMul"])
         kinds = ["int", "float", "npf64", "npf32", "npi64", "t0", "t1"] + (["complex"] if cplx else [])
@@ -38,6 +39,20 @@ def gen_case(rng, car):
         if cplx and kind in ("complex", "t0", "t1") and rng.random() < 0.5:
             v = complex(v, rng.choice([1, -2]))
         return Op(op, [x, Scal(kind, v)]), "scalar", None
+    if r < 0.76:      # tiny (dyadic) scalars: |c| <= 1e-8 is not zero
+        x = gen_tt(rng, cplx=False)
+        c = rng.choice([2.0 ** -40, -2.0 ** -35, 2.0 ** -60])
+        return Op(rng.choice(["OMul", "ORMul"]), [x, Scal(rng.choice(["float", "npf64", "t0"]), c, coq_value=Fraction(c))]), "scalar-tiny", coqrun.QC
+    if r < 0.82:      # factories: ones, zeros, rank-one tensors, meshgrid (the same vector object may serve several axes)
+        k = rng.random()
+        d = rng.choice([1, 2, 3, 4])
+        if k < 0.2: return Op("OOnes", [], [[rng.choice([1, 2, 3, 4]) for _ in range(d)]]), "factory:ones", None
+        if k < 0.4: return Op("OZeros", [], [[rng.choice([1, 2, 3, 4]) for _ in range(d)]]), "factory:zeros", None
+        vecs = [Dense(ttgen.rand_core(rng, (rng.choice([1, 2, 3, 4]),), cplx, -3, 3)) for _ in range(d)]
+        if d >= 2 and rng.random() < 0.5:
+            i, j = rng.sample(range(d), 2); vecs[j] = vecs[i]         # the same object on two axes
+        if k < 0.6: return Op("ORank1", vecs), "factory:rank1", None
+        return Op("OMeshgrid", vecs, [[rng.randrange(d)]]), "factory:meshgrid", None
     if r < 0.88:      # division by a scalar: dyadic data, model over Qc
         x = gen_tt(rng, cplx=False, mult=rng.choice([1, 2, 4]))
         kind = rng.choice(["int", "float", "npf64", "npi64", "t0", "t1"])
@@ -64,7 +79,7 @@ def gen_case(rng, car):
     return Op("OKron", [x, gen_tt(rng, d=rng.choice([1, 2]), cplx=cplx)]), "kron", None
 
 def nontrivial(e, cat):
-    if cat in ("bcast", "scalar", "div"):
+    if cat in ("bcast", "scalar", "div", "scalar-tiny") or cat.startswith("factory"):
         return True
     return any(isinstance(a, Lit3) and any(c.shape[2] > 1 for c in a.cores[:-1]) for a in e.args)
 
